@@ -8,6 +8,7 @@ CONSTANTS
   TYPES = {"d3"}
   USIZE = 1
   PROP = "C11"
+  APPLYS = {0, 1, 2, 3, 4, 5}
 SPECIFICATION Spec
 VIEW View
 INVARIANTS C11 C10 C04 C06 BufInv
